@@ -24,6 +24,8 @@ def random_mutation(rng, world, cfg, weights=None, counter=None):
     if counter:
         counter[0] += 1
     data = ('ext%d' % n).encode()
+    if rng.random() < 0.06:
+        data = b''      # zero-length files
     ok = False
     if k == 'write':
         ok = world.ext_write(rand_path(rng, cfg), data)
